@@ -1,5 +1,7 @@
 pub mod ber;
 pub mod conv;
+pub mod dn_ref;
+pub mod filter_ref;
 pub mod lanes;
 pub mod prng;
 pub mod report;
